@@ -216,9 +216,20 @@ class BreakpointHandler:
         @return the message box body for the debug-action query, for the current ip.
         """
         address = self.get_address_str(ip)
-        flip = self.get_address_str(mem.get_word(ip))
-        jump = self.get_address_str(mem.get_word(ip + mem.memory_width))
+        flip = self._get_word_address_str(mem, ip)
+        jump = self._get_word_address_str(mem, ip + mem.memory_width)
         return f'Address {address}.\n\n{op_counter} ops executed.\n\nflip {flip}.\n\njump {jump}.'
+
+    def _get_word_address_str(self, mem: fjm_reader.Reader, word_bit_address: int) -> str:
+        """
+        @return: get_address_str() of the word stored at word_bit_address. showing the prompt must never change the run,
+        so a word outside the program's memory is shown as such (the op itself will fail on it, exactly as without
+        the debugger) instead of failing here - before the op's output / flip took place.
+        """
+        try:
+            return self.get_address_str(mem.get_word(word_bit_address))
+        except FlipJumpException:
+            return "(unreadable - this word is outside the program's memory)"
 
     def handle_read_memory(self, target: str, mem: fjm_reader.Reader) -> None:
         """
